@@ -47,9 +47,11 @@ func runC04(p *core.Program, r *core.Report) {
 	r.Rule("C04.prefix", "readers of agreeing codec pairs consume everything the writer emitted, so strict prefixes fail in ReadBytes", 100)
 	r.Rule("C04.alloc", "allocations sized by a wide decoded count are preceded by a rejecting bound check", 10)
 	r.Rule("C04.terminate", "loops bounded by a decoded count read from the stream on every path of their body", 54)
+	r.Rule("C04.limit", "size-limited reads compare the announced length with the caller's limit before any byte of the payload is read or allocated", 1)
 	r.Rule("C04.unknown-tag", "unknown type codes end in a (recoverable) panic, never in a fabricated object", 4)
 
 	c04ShortRead(p, r)
+	c04Limit(p, r)
 	c04Prefix(p, r)
 	c04AllocAndLoops(p, r)
 	for _, f := range [][4]string{{"lang/value", "CreateValue", "Value", "GetValueType"}, {"lang/pack", "CreatePack", "Pack", "GetPackType"},
@@ -72,14 +74,187 @@ func runC04(p *core.Program, r *core.Report) {
 		case *ast.ReturnStmt:
 			if len(v.Results) == 1 {
 				if id, ok := v.Results[0].(*ast.Ident); ok && id.Name == "nil" {
-					// the reader immediately calls a method on the nil interface
-					r.OK("C04.unknown-tag", c, p.Pos(last.Pos()), "returns nil; ReadX calls .Read on the nil interface next (nil-dereference panic, recoverable)")
+					// the reader must immediately call a method on the nil interface (recoverable panic);
+					// a nil test that lets the decoder carry on accepts the unknown code silently
+					bad := ""
+					for _, cf := range p.Funcs {
+						if cf.Decl.Body == nil || strings.Contains(cf.Obj.Name(), "zzCanary") {
+							continue
+						}
+						cinfo := cf.Pkg.TypesInfo
+						ast.Inspect(cf.Decl.Body, func(m ast.Node) bool {
+							as, ok := m.(*ast.AssignStmt)
+							if !ok || len(as.Lhs) != 1 || len(as.Rhs) != 1 {
+								return true
+							}
+							call, ok := ast.Unparen(as.Rhs[0]).(*ast.CallExpr)
+							if !ok {
+								return true
+							}
+							var fid *ast.Ident
+							switch fx := call.Fun.(type) {
+							case *ast.Ident:
+								fid = fx
+							case *ast.SelectorExpr:
+								fid = fx.Sel
+							}
+							if fid == nil || cinfo.Uses[fid] != fi.Obj {
+								return true
+							}
+							lid, ok := as.Lhs[0].(*ast.Ident)
+							if !ok {
+								return true
+							}
+							obj := cinfo.ObjectOf(lid)
+							ast.Inspect(cf.Decl.Body, func(k ast.Node) bool {
+								ifs, ok := k.(*ast.IfStmt)
+								if !ok {
+									return true
+								}
+								be, ok := ast.Unparen(ifs.Cond).(*ast.BinaryExpr)
+								if !ok || (be.Op != token.EQL && be.Op != token.NEQ) {
+									return true
+								}
+								xi, ok1 := ast.Unparen(be.X).(*ast.Ident)
+								yi, ok2 := ast.Unparen(be.Y).(*ast.Ident)
+								if !ok1 || !ok2 || cinfo.ObjectOf(xi) != obj || yi.Name != "nil" {
+									return true
+								}
+								var nilArm ast.Node = ifs.Body
+								if be.Op == token.NEQ {
+									nilArm = ifs.Else
+								}
+								panics := false
+								if nilArm != nil {
+									ast.Inspect(nilArm, func(q ast.Node) bool {
+										if pc, ok := q.(*ast.CallExpr); ok {
+											if pid, ok := pc.Fun.(*ast.Ident); ok && pid.Name == "panic" {
+												panics = true
+											}
+										}
+										return true
+									})
+								}
+								if !panics && bad == "" {
+									bad = core.FuncName(cf.Obj) + " at " + p.Pos(ifs.Pos()) + " tests the result for nil and carries on"
+								}
+								return true
+							})
+							return true
+						})
+					}
+					if bad != "" {
+						r.Viol("C04.unknown-tag", c, p.Pos(last.Pos()), "an unknown code yields nil and "+bad+": corrupted input is accepted silently instead of failing (a nil element is fabricated / bytes are left unread)")
+					} else {
+						r.OK("C04.unknown-tag", c, p.Pos(last.Pos()), "returns nil; every caller calls a method on the nil interface next (nil-dereference panic, recoverable)")
+					}
 					continue
 				}
 			}
 		}
 		r.Viol("C04.unknown-tag", c, p.Pos(last.Pos()), "an unknown code neither panics nor returns nil: an object of some default type is fabricated")
 	}
+}
+
+// c04Limit: a reader that takes a size limit from its caller (ReadXLimit(max)) must reject before it
+// reads: on every path, each variable-length read (ReadBytes/ReadIntBytes/ReadBlob/...) is preceded by
+// a comparison that mentions the limit parameter and whose other outcome panics. Checking the length of
+// what was already read is too late for a socket-backed input (the allocation has happened).
+func c04Limit(p *core.Program, r *core.Report) {
+	n := 0
+	for _, fi := range p.MethodsOf(namedIn(p, "io", "DataInputX")) {
+		if fi.Decl.Body == nil || !strings.HasSuffix(fi.Obj.Name(), "Limit") || fi.Decl.Type.Params.NumFields() == 0 {
+			continue
+		}
+		n++
+		info := fi.Pkg.TypesInfo
+		limits := map[types.Object]bool{}
+		for _, f := range fi.Decl.Type.Params.List {
+			for _, nm := range f.Names {
+				limits[info.Defs[nm]] = true
+			}
+		}
+		mentions := func(e ast.Expr) bool {
+			found := false
+			ast.Inspect(e, func(m ast.Node) bool {
+				if id, ok := m.(*ast.Ident); ok && limits[info.ObjectOf(id)] {
+					found = true
+				}
+				return true
+			})
+			return found
+		}
+		ps, over := paths.Enumerate(fi.Decl.Body, paths.Config{Info: info,
+			Cond: func(c ast.Expr, v bool) *paths.Event {
+				if mentions(c) {
+					return &paths.Event{Kind: "LIMITCOND", Arg: fmt.Sprint(v), Pos: c.Pos()}
+				}
+				return nil
+			},
+			Classify: func(m ast.Node) []paths.Event {
+				var out []paths.Event
+				ast.Inspect(m, func(k ast.Node) bool {
+					if call, ok := k.(*ast.CallExpr); ok {
+						if sel, ok := call.Fun.(*ast.SelectorExpr); ok {
+							switch sel.Sel.Name {
+							case "ReadBytes", "ReadIntBytes", "ReadBlob", "ReadShortBytes", "ReadText":
+								out = append(out, paths.Event{Kind: "READVAR", Arg: sel.Sel.Name, Pos: call.Pos()})
+							}
+						}
+						if id, ok := call.Fun.(*ast.Ident); ok && id.Name == "panic" {
+							out = append(out, paths.Event{Kind: "PANIC"})
+						}
+					}
+					return true
+				})
+				return out
+			}})
+		c := core.FuncName(fi.Obj)
+		pos := p.Pos(fi.Decl.Pos())
+		if over {
+			r.Undec("C04.limit", c, pos, "too many paths")
+			continue
+		}
+		bad := ""
+		reads := 0
+		for _, pa := range ps {
+			for i, e := range pa {
+				if e.Kind != "READVAR" {
+					continue
+				}
+				reads++
+				guarded := false
+				for _, b := range pa[:i] {
+					if b.Kind == "LIMITCOND" {
+						guarded = true
+					}
+				}
+				if !guarded && bad == "" {
+					bad = e.Arg + " is reached before the announced length was compared with the limit: the payload is allocated and read first, the limit checked afterwards (or never)"
+				}
+			}
+		}
+		if reads == 0 {
+			r.Undec("C04.limit", c, pos, "no variable-length read found")
+			continue
+		}
+		r.Check(bad == "", "C04.limit", c, pos, "length compared with the limit before the payload is read", bad)
+	}
+	if n == 0 {
+		r.Info("C04.limit", "io.(*DataInputX).*Limit", "-", "no size-limited reader in the package")
+	}
+}
+
+func namedIn(p *core.Program, rel, name string) *types.Named {
+	pk := p.Pkg(rel)
+	if pk == nil {
+		return nil
+	}
+	if o := pk.Types.Scope().Lookup(name); o != nil {
+		n, _ := o.Type().(*types.Named)
+		return n
+	}
+	return nil
 }
 
 func c04ShortRead(p *core.Program, r *core.Report) {
